@@ -45,7 +45,7 @@ var c01Spellings = []enum.Spelling{
 	{Unit: "  ", Bullets: []byte("-"), Heading: true},
 }
 
-var hostileNames = []string{"a", "- x", "*", "é日本", " a", "a ", "a-b", "+x*", "#h", "a  b", "└── x", "│   y", "a\tb", "100%d", "<&>\"", "p ├── └── q", "C#"} // incl. names that look like branches, format verbs, markup
+var hostileNames = []string{"a", "- x", "*", "é日本", " a", "a ", "a-b", "+x*", "#h", "a  b", "└── x", "│   y", "a\tb", "100%d", "<&>\"", "p ├── └── q", "C#", "e\u0301x", "a\xffb"} // incl. names that look like branches, format verbs, markup
 
 type c01Replay struct {
 	Kind  string     `json:"kind"`
